@@ -173,8 +173,23 @@ def _case(draw, tier):
     return {'history': hist, 'final': final, 'late_defined': draw(st.booleans())}
 
 
+def _monotone(case):
+    """The forward-referenced name goes unbound -> placeholder -> class, never back: a wrapper that has resolved its reference
+    to the class legitimately keeps that resolution (like a wrapper built for an earlier generation of a redefined class), so a
+    later rebinding to a placeholder is outside what 'the same query in a fresh process' can judge."""
+    good = False
+    hist = []
+    for op in case['history']:
+        if op[0] == 'define_late':
+            good = True
+        elif op[0] == 'define_late_bad' and good:
+            op = ['define_late']
+        hist.append(op)
+    return dict(case, history=hist)
+
+
 def strategy(tier):
-    return _case(tier)
+    return _case(tier).map(_monotone)
 
 
 # ------------------------------------------------------------------ interpreter (runs inside the forked child)
